@@ -368,7 +368,7 @@ def _run(ctx):
     chunks = [[] for _ in range(nchunks)]
     for i, r in enumerate(runs):
         chunks[i * nchunks // len(runs)].extend(r)
-    with ThreadPoolExecutor(max_workers=4) as ex:
+    with ThreadPoolExecutor(max_workers=4 if quick else 6) as ex:
         vals = list(ex.map(lambda ic: validate(ctx, f"chunk{ic[0]}", ic[1]), enumerate(chunks)))
     for ci, (viols, tlcs, ok) in enumerate(vals):
         for nm, res in tlcs:
@@ -393,7 +393,10 @@ def _run(ctx):
 
 
 def selftest(ctx, recs):
-    run0 = vp.split_runs(recs)[0]
+    # a run that is clean by itself (no leftover at all), so that each corruption is the only flaw
+    run0 = next(r for r in vp.split_runs(recs)
+                if any(x.get("a") == "final" and x.get("left") == 0 and "masked" not in x for x in r)
+                and any(x.get("a") == "use" and x.get("o") == "RS" for x in r))
     muts = []
     m = [dict(r) for r in run0]
     for r in m:
